@@ -3,6 +3,7 @@
 From Coq Require Import String.
 From Coq Require Import List NArith.
 From Borsh Require Import Bytes Result Ty Ser De Entry RoundTrip RoundTripKeyed DecCorollaries ZstFacts.
+From Borsh Require Import Schema SchemaFns SchemaSpec SchemaOf SchemaOfFacts SchemaOfCover SchemaOfValidate.
 Import ListNotations.
 Local Open Scope N_scope.
 
@@ -46,9 +47,29 @@ Theorem C14_usable_option :
 Proof. exact option_usable. Qed.
 Print Assumptions C14_usable_option.
 
-(** PARTIAL: the agreement between this run-time refusal and schema validation
-    (C14_agree: mem_zst t -> wire-empty t -> validate (schema_of (Vec t)) = Err ZSTSequence)
-    lives with the schema model (Properties/C10.v, C08.v); here it is tied by correspondence. *)
+(** Agreement with schema validation (proofs in SchemaOfValidate.v; the same statements are
+    listed with the schema theorems in Properties/C08.v).  [wire_empty e]: every value of [e]
+    encodes to zero bytes; [coherent]: each declaration string stands for one definition
+    (decidable; finding F13 shows it cannot be dropped).  For sequence and set element types
+    that are empty both in memory and on the wire the run-time refusal and the
+    zero-sized-sequence verdict of validation agree ... *)
+Theorem C14_agree :
+  forall k e c cfg0 v bs,
+    has_schema (TSeq k e) = true -> coherent (TSeq k e) = true -> schema_of (TSeq k e) = Ok c ->
+    ser_checks_zst k = true -> is_map k = false ->
+    mem_zst e = true -> wire_empty e = true ->
+    enc (TSeq k e) v = Err InvalidData MZst /\
+    dec_slice cfg0 (TSeq k e) bs = Err InvalidData MZst /\
+    validate c = SErr (ZSTSequence (decl_of (TSeq k e))).
+Proof. exact agree_runtime. Qed.
+Print Assumptions C14_agree.
+
+(** ... and for element types that do occupy the wire validation never gives that verdict. *)
+Theorem C14_agree_converse :
+  forall k e c, has_schema (TSeq k e) = true -> coherent (TSeq k e) = true -> schema_of (TSeq k e) = Ok c ->
+    wire_empty e = false -> validate c <> SErr (ZSTSequence (decl_of (TSeq k e))).
+Proof. exact agree_nonempty. Qed.
+Print Assumptions C14_agree_converse.
 
 (** Non-vacuity: a nested zero-sized element type; the same type is fine inside an array. *)
 Definition zst_elem : ty := TProd PTuple [TArray 0 (TPrim (PInt false W1)); TUnit UPhantom; TArray 3 (TUnit UUnit)].
